@@ -296,7 +296,7 @@ def uni_aave_world(n=4):
     return World("uni+aave", build, roots, fr)
 
 
-def deribit_uni_world(hours=3, frozen_bar=0):
+def deribit_uni_world(hours=3, frozen_bar=0, extra_instruments=0):
     """Hourly option market beside a minutely pool: bars are minutes, the option market is open on the hour only."""
     from . import deribit as db
 
@@ -306,7 +306,10 @@ def deribit_uni_world(hours=3, frozen_bar=0):
     raw = _raw("uni.raw", uni.raw_frame(ticks, 5 * 10**8, 2 * 10**17, 4 * 10**16, open_tick=ticks[0]))
     data = uni.prepared(raw, pool)
     price_df, quote = get_price_from_data(data, pool)
-    odata = _raw("deribit.raw", db.std_frame(hours))
+    books = dict(db.STD_BOOKS)
+    for i in range(extra_instruments):  # a realistic option chain has far more rows per hour than the co-market has minutes
+        books[f"X{i:02d}"] = dict(kind="CALL", strike=3000 + 10 * i, mark=0.01, asks=[[0.0105, 1]], bids=[], fixed=True)
+    odata = _raw("deribit.raw", db.std_frame(hours, books=books))
     prices = db.price_frame(odata).loc[data.index[0]:data.index[-1]].copy()
     up = _decimal_prices(price_df)
     prices["WETH"] = up["WETH"]
@@ -321,7 +324,7 @@ def deribit_uni_world(hours=3, frozen_bar=0):
         _begin(ctx, frozen_bar)
         return ctx
 
-    name = "deribit+uni" if frozen_bar % 60 == 0 else "deribit+uni(closed)"
+    name = ("deribit+uni" if not extra_instruments else "deribit(many)+uni") if frozen_bar % 60 == 0 else "deribit+uni(closed)"
     roots = ((), ("deribit.deposit[part]", "deribit.buy[C1,2,market]"), ("uni.add[in,part,part]", "deribit.deposit[part]", "deribit.buy[P1,1,market]"))
     if frozen_bar % 60 != 0:
         roots = ((), ("deribit.deposit[part]",))  # frozen between two hours: the option market is closed, every write must be refused and change nothing
